@@ -406,13 +406,15 @@ func init() {
 		// context text with %s for the hole
 		return [][2]string{{"[%s, a]", "list"}, {"{k: %s}", "hash"}, {"%s || a", "or-left"}, {"a || %s", "or-right"}, {"a && %s", "and-right"},
 			{"%s == a", "cmp"}, {"!%s", "not"}, {"%s | a", "pipe-left"}, {"type(%s)", "arg"}, {"(%s).a", "sub-left"}, {"(%s)[0]", "index-left"},
-			{"(%s)[*].a", "proj-left"}, {"not_null(a, %s)", "arg2"}, {"(%s)[]", "flat-left"}, {"(%s)[?a]", "filter-left"}}
+			{"(%s)[*].a", "proj-left"}, {"not_null(a, %s)", "arg2"}, {"(%s)[]", "flat-left"}, {"(%s)[?a]", "filter-left"},
+			{"[%s, a, b]", "list-then-reread"}, {"[%s, @]", "list-then-root"}, {"{x: %s, y: a}", "hash-then-reread"}}
 	}
 	substEs := func(tier string) []tmpl {
 		es := []tmpl{hField("a"), buildChain(hField("a"), sField("b")), buildChain(hField("a"), sIndex("0")), hList(hField("a"), hField("b")),
-			tOr(hField("a"), hField("b")), hLit("1"), call("type", hField("a")), buildChain(hField("a"), sProj(), sField("b")), hCur()}
+			tOr(hField("a"), hField("b")), hLit("1"), call("merge", hField("a"), hField("b")), call("sort_by", hField("a"), ref(hCur())),
+			call("type", hField("a")), buildChain(hField("a"), sProj(), sField("b")), hCur(), call("reverse", hField("a")), call("to_array", hField("a"))}
 		if tier != "thorough" {
-			return es[:6]
+			return es[:8]
 		}
 		return es
 	}
@@ -538,6 +540,7 @@ func init() {
 	nav := []string{"a", "n", "p", "p.a", "p.n", "p.p", "s", "s[0]", "s[0].a", "s[-1].n", "s[*].a", "s[*]", "q", "q[0]", "q[0].a", "q[*].a", "q[*]", "q[]",
 		"s[]", "l", "l[0]", "l[*]", "l[1:]", "s[1:].a", "s[?a].n", "s[?n > `0`].a", "q[?a]", "[a, n]", "{x: a, y: p.a}", "p || a", "p && a", "!p", "a || n",
 		"s | [0]", "length(s)", "length(l)", "length(a)", "l[::-1]", "f[0]", "f[*]", "s[*].[a, n]", "q[*].n", "zz", "p.zz", "s[5]", "@.a", "[p]", "{k: p}",
+		"l[990001:990002:990003]", "s[990001:990002:990003].a", "q[990001::990002]", "f[:990001:990002]", "l[990001]", "q[990001].a", "l[1:0:-1]", "l[-1:1]",
 		"q[0] || a", "!q[0]", "[q[0]]", "s[*].p", "q[?n > `0`].a", "s[::2].n", "q[1:]", "p.s", "p.l[0]", "a == p.a", "n < p.n", "s[0] == s[1]", "[s[0].a, q[0].a]"}
 	funcs := []string{"contains(l, a)", "reverse(l)", "sort_by(s, &n)", "max_by(s, &n)", "min_by(s, &a)", "map(&a, s)", "join(a, l)", "sort(l)", "sort(f)",
 		"max(f)", "sum(f)", "avg(f)", "to_array(l)", "not_null(p, a)", "type(s)", "type(p)", "type(q[0])", "keys(@)", "values(p)", "merge(p, p)", "to_string(l)",
@@ -557,14 +560,14 @@ func init() {
 			var js []*Job
 			for _, ptr := range []string{"0", "1"} {
 				for _, e := range nav {
-					j := jobOf("VerifStruct", []string{"C18"}, "expr", e, "use", usesOf(e), "ptr", ptr, "cmp", "1")
+					j := jobOf("VerifStruct", []string{"C18"}, "expr", e, "use", usesOf(e), "ptr", ptr, "cmp", "1", "ints", itoa(countInts(e)))
 					j.Unwind = 64 + 4*len(e)
 					j.NumBound = 1e30
 					js = append(js, j)
 				}
 				for _, e := range funcs {
 					u := usesOf(e)
-					j := jobOf("VerifStruct", []string{"C18"}, "expr", e, "use", u, "ptr", ptr, "cmp", "0")
+					j := jobOf("VerifStruct", []string{"C18"}, "expr", e, "use", u, "ptr", ptr, "cmp", "0", "ints", "0")
 					j.Unwind = 64 + 4*len(e)
 					j.NumBound = 1e30
 					if strings.Contains(e, "avg(") || strings.Contains(e, "sum(") {
